@@ -2,32 +2,7 @@
 """Adds the outcome of the checks to seeded/<id>/meta.json (from .work/mutants.tsv and a built-in table of earlier trials)."""
 import json, os, sys
 VERIF = os.path.dirname(os.path.dirname(os.path.abspath(__file__)))
-earlier = {
- "C01-1": [("C01", 1, "replicas_diverged / server_rebuild_differs")],
- "C01-2": [("C01", 1, "no_panic: set <ticket>: child not found"), ("C04", 1, "delivered_changes_differ_from_log_range (own change echoed)")],
- "C02-1": [("C02", 1, "server_rebuild_failed_cold")],
- "C02-2": [("C02", 1, "rebuild_warm_differs_from_cold"), ("C20", 1, "rebuild_warm_differs_from_cold")],
- "C03-1": [("C03", 1, "unfaulted_call_failed: MoveAfter child not found")],
- "C03-2": [("C03", 1, "unfaulted_call_failed: MoveAfter child not found")],
- "C04-1": [("C04", 1, "unfaulted_call_failed after push-only checkpoint jump")],
- "C04-2": [("C04", 0, "missed: needs two overlapping requests of one client (step-level engine not built)")],
- "C05-1": [("C05", 1, "token_lost")],
- "C05-2": [("C05", 1, "change_stored_twice"), ("C04", 1, "delivered_changes_differ_from_log_range")],
- "C10-1": [("C10", 0, "missed: needs the new generation's log to outgrow the old head with no rebuild in between")],
- "C10-2": [("C10", 1, "stale_sync_accepted")],
- "C11-1": [("C11", 1, "version_vector_row_left_behind")],
- "C11-2": [("C11", 0, "missed: needs an attach that fails after TryAttaching; raw clients send well-formed attaches only")],
- "C12-1": [("C12", 1, "presence_participants_differ_from_attached")],
- "C12-2": [("C12", 1, "clone_differs_from_root / presence stored (after the flag-mismatch finding's key was narrowed by class)")],
- "C14-1": [("C14", 1, "redo_content_mismatch")],
- "C14-2": [("C14", 0, "missed: needs GC before Undo, outside the claimed local domain")],
- "C18-1": [("C18", 1, "replicas_diverged")],
- "C18-2": [("C18", 1, "restored_content_differs")],
- "C19-1": [("C19", 0, "missed: the cell (merge x delete, intersect-element) is swept but converges under the simulator's clocks")],
- "C19-2": [("C19", 1, "tree_xml_diverged")],
- "C20-1": [("C20", 1, "cache_served_range_differs_from_store")],
- "C20-2": [("C20", 1, "rebuild_warm_differs_from_cold")],
-}
+earlier = {}  # every change is re-run against its property's check by lib/mutant_batch.sh < lib/mutant_matrix.txt
 tsv = os.path.join(VERIF, ".work", "mutants.tsv")
 if os.path.exists(tsv):
     for line in open(tsv):
@@ -46,6 +21,6 @@ for d in sorted(os.listdir(os.path.join(VERIF, "seeded"))):
     meta["breaks_property"] = meta.get("property", d.split("-")[0])
     meta["confirmed"] = "lib/confirm_mutant.sh in a scratch worktree: demo passes on the clean tree, fails with the patch; patched tree builds and passes `go test ./...`"
     meta["checks_run"] = [{"check": p, "caught": bool(c), "result": r} for p, c, r in runs] or [{"check": None, "caught": False, "result": "no check exists for this property (not claimed) and no other check was tried"}]
-    meta["how_run"] = "git -C /repo apply patch.diff; ./check <property> --runs <quick count>; git -C /repo checkout -- ."
+    meta["how_run"] = "lib/try_mutant.sh: git -C /repo apply patch.diff; ./check <property> --no-evidence --runs <quick count>; git -C /repo checkout -- .  (tree of the final /repo HEAD with all fix: commits)"
     json.dump(meta, open(mp, "w"), indent=1)
 print("seeded meta updated")
